@@ -647,7 +647,7 @@ Ops == OpsHere /\ \E gi \in GraphIdx(LiveItems) :
           /\ (Mode = "gen" => gi = MinOf(GraphIdx(LiveItems)))
           /\ ((\E c \in (IF Mode = "gen" THEN OpSetQuick ELSE OpSetChoices) : GSet(gi, c[1], c[2])) \/ GBind(gi))
 \* quick export: a second description follows two-section descriptions, with a reset in between for every other one
-NextDocs == IF Mode = "gen" THEN ~sess.on /\ cnt.secs = 2 /\ NextDoc((cnt.opts + Cardinality(HeapFlags)) % 2 = 1)
+NextDocs == IF Mode = "gen" THEN ~sess.on /\ cnt.secs = 2 /\ cnt.opts <= 1 /\ NextDoc((cnt.opts + Cardinality(HeapFlags)) % 2 = 1)
             ELSE IF Mode = "gent" THEN ~sess.on /\ cnt.secs = 2 /\ \E rst \in BOOLEAN : NextDoc(rst)
             ELSE \E rst \in BOOLEAN : NextDoc(rst)
 Next == Build \/ (\E m \in CopyPick : Probe("copy", m)) \/ CLoad
